@@ -241,6 +241,9 @@ func (r *vfRun) Seen(set, member string) {
 func (r *vfRun) Violation(sig, detail string, c any) {
 	if r.SigMap != nil {
 		sig = r.SigMap(sig)
+		if sig == "" { // mapped away: not this run's subject
+			return
+		}
 	}
 	r.mu.Lock()
 	r.violSeen[sig]++
